@@ -480,7 +480,7 @@ fn media_type_of(name: &str) -> Option<deno_graph::MediaType> {
 
 pub fn extra(_tier: Tier, _seed: u64) -> ExtraReport {
   let mut rep = ExtraReport::default();
-  let mut sigs = std::collections::BTreeSet::new();
+  let mut sigs: std::collections::BTreeSet<String> = std::collections::BTreeSet::new();
   let mut parsed = 0u64;
   for (file, name, src) in corpus_sources() {
     if let Some(only) = crate::runner::only_corpus_file() {
@@ -554,5 +554,201 @@ pub fn extra(_tier: Tier, _seed: u64) -> ExtraReport {
   }
   rep.notes.push(format!("spec corpus: {parsed} embedded module sources parsed and round-tripped"));
   *rep.labels.entry("corpus-modules".into()).or_insert(0) += parsed;
+  mutation_layer(&mut rep, &mut sigs, _seed, _tier);
   rep
+}
+
+/// Text-level mutations of every corpus source with an exact metamorphic
+/// expectation: inserting text that is trivia (a comment line, a comment in
+/// front of an import / export statement, a shebang, CR before every LF)
+/// leaves the reported dependencies as they were and moves every reported
+/// range by exactly the bytes inserted before it.
+fn mutation_layer(
+  rep: &mut ExtraReport,
+  sigs: &mut std::collections::BTreeSet<String>,
+  seed: u64,
+  tier: Tier,
+) {
+  use sha2::{Digest, Sha256};
+  let rounds = tier.pick(4u64, 16u64);
+  let mut applied = 0u64;
+  let mut preserved = 0u64;
+  let mut changed = 0u64;
+  let mut unparsable = 0u64;
+  for (file, name, src) in corpus_sources() {
+    if let Some(only) = crate::runner::only_corpus_file() {
+      if only != file {
+        continue;
+      }
+    }
+    let Some(mt) = media_type_of(&name) else { continue };
+    let src = src.trim_start_matches("HEADERS:").to_string();
+    if src.contains('\r') {
+      continue;
+    }
+    let url = ModuleSpecifier::parse("file:///corpus.ts").unwrap();
+    let analyze = |text: &str| {
+      deno_graph::ast::ParserModuleAnalyzer::default()
+        .analyze_sync(&url, text.into(), mt)
+        .ok()
+    };
+    let Some(info0) = analyze(&src) else { continue };
+    let base = reported(&src, &info0);
+    if base.is_empty() {
+      continue;
+    }
+    // line starts
+    let mut line_starts = vec![0usize];
+    for (i, b) in src.bytes().enumerate() {
+      if b == b'\n' && i + 1 < src.len() {
+        line_starts.push(i + 1);
+      }
+    }
+    for m in 0..rounds {
+      let mut h = Sha256::new();
+      h.update(seed.to_le_bytes());
+      h.update(file.as_bytes());
+      h.update(name.as_bytes());
+      h.update(m.to_le_bytes());
+      let d = h.finalize();
+      let pick = |k: usize, n: usize| -> usize {
+        let v = u32::from_le_bytes([d[4 * k], d[4 * k + 1], d[4 * k + 2], d[4 * k + 3]]) as usize;
+        if n == 0 {
+          0
+        } else {
+          v % n
+        }
+      };
+      // insertions: (offset in the original, text)
+      let mut ins: Vec<(usize, String)> = Vec::new();
+      let kind = match pick(0, 4) {
+        0 => {
+          let at = line_starts[pick(1, line_starts.len())];
+          ins.push((at, "/* \u{e9}\u{1F600} \u{2028}x */\n".to_string()));
+          "comment-line"
+        }
+        1 => {
+          // in front of an import / export statement whose previous line is
+          // not a comment (a pragma must stay the last leading comment)
+          let cands: Vec<usize> = line_starts
+            .iter()
+            .enumerate()
+            .filter(|(li, st)| {
+              let line = &src[**st..];
+              let t = line.trim_start();
+              let prev_ok = *li == 0 || {
+                let prev = src[line_starts[*li - 1]..**st].trim();
+                !(prev.starts_with("//") || prev.ends_with("*/") || prev.starts_with('*') || prev.starts_with("/*"))
+              };
+              (t.starts_with("import ") || t.starts_with("import\"") || t.starts_with("import {") || t.starts_with("export ")) && prev_ok
+            })
+            .map(|(_, st)| {
+              let line = &src[*st..];
+              *st + (line.len() - line.trim_start().len())
+            })
+            .collect();
+          if cands.is_empty() {
+            continue;
+          }
+          ins.push((cands[pick(1, cands.len())], "/* \u{e9}\u{1F600} */ ".to_string()));
+          "inline-comment"
+        }
+        2 => {
+          if src.starts_with("#!") {
+            continue;
+          }
+          ins.push((0, "#!/usr/bin/env -S deno run \u{e9}\n".to_string()));
+          "shebang"
+        }
+        _ => {
+          for (i, b) in src.bytes().enumerate() {
+            if b == b'\n' {
+              ins.push((i, "\r".to_string()));
+            }
+          }
+          if ins.is_empty() {
+            continue;
+          }
+          "crlf"
+        }
+      };
+      ins.sort_by_key(|x| x.0);
+      let mut text = String::with_capacity(src.len() + 64);
+      let mut last = 0usize;
+      for (at, t) in &ins {
+        text.push_str(&src[last..*at]);
+        text.push_str(t);
+        last = *at;
+      }
+      text.push_str(&src[last..]);
+      applied += 1;
+      rep.evaluations += 1;
+      crate::runner::set_current_item(&serde_json::json!({"corpus_file": file, "module": name, "mutation": m}));
+      let Some(info1) = analyze(&text) else {
+        unparsable += 1;
+        continue;
+      };
+      let got = reported(&text, &info1);
+      let same = got.len() == base.len()
+        && got.iter().zip(base.iter()).all(|(a, b)| {
+          a.kind == b.kind
+            && a.text == b.text
+            && a.attr_type == b.attr_type
+            && a.types.as_ref().map(|t| &t.0) == b.types.as_ref().map(|t| &t.0)
+        });
+      if !same {
+        // the insertion was not trivia at that place (inside a template, a
+        // JSX text, between a pragma and its import, ...): no expectation
+        changed += 1;
+        continue;
+      }
+      preserved += 1;
+      let shift_start = |o: usize| o + ins.iter().filter(|(at, _)| *at <= o).map(|(_, t)| t.len()).sum::<usize>();
+      let shift_end = |o: usize| o + ins.iter().filter(|(at, _)| *at < o).map(|(_, t)| t.len()).sum::<usize>();
+      let mut moved = false;
+      for (a, b) in got.iter().zip(base.iter()) {
+        let mut pairs = vec![(a.range, b.range)];
+        if let (Some(ta), Some(tb)) = (&a.types, &b.types) {
+          pairs.push((ta.1, tb.1));
+        }
+        for ((gs, ge), (bs, be)) in pairs {
+          if bs > src.len() || be > src.len() || bs > be {
+            continue; // the unmutated layer reports those
+          }
+          let want = (shift_start(bs), shift_end(be));
+          if want != (bs, be) {
+            moved = true;
+          }
+          if (gs, ge) != want {
+            let sig = format!("C08/mutated-corpus/range-not-moved-with-the-text/{}/{kind}", kind_tag(&a.kind));
+            if sigs.insert(sig.clone()) {
+              rep.violations.push((
+                Violation {
+                  sig,
+                  msg: format!(
+                    "{file} # {name}: after inserting {kind} trivia the range of {:?} is bytes {gs}..{ge} = {:?}, expected {}..{} = {:?}\n--- mutated source\n{text}",
+                    a.text,
+                    text.get(gs.min(text.len())..ge.min(text.len())),
+                    want.0,
+                    want.1,
+                    text.get(want.0.min(text.len())..want.1.min(text.len())),
+                  ),
+                },
+                serde_json::json!({"corpus_file": file, "module": name, "mutation": m}),
+              ));
+            }
+          }
+        }
+      }
+      if moved {
+        rep.nontrivial_hashes.push(crate::runner::hash_json(&serde_json::json!({"corpus_file": file, "module": name, "mutation": m, "kind": kind})));
+      }
+    }
+  }
+  crate::runner::clear_current_item();
+  rep.notes.push(format!(
+    "mutated corpus: {applied} trivia insertions (comment line, comment before an import/export, shebang, CRLF) applied to corpus sources; {preserved} left the reported dependencies unchanged and had every range compared with the shifted original, {changed} changed the dependencies (no expectation), {unparsable} no longer parsed"
+  ));
+  *rep.labels.entry("mutated-corpus-sources".into()).or_insert(0) += applied;
+  *rep.labels.entry("mutated-corpus-ranges-compared".into()).or_insert(0) += preserved;
 }
